@@ -15,29 +15,29 @@ CHECKS = {
          "Every return value and the full contents (iter, len, lookups owned and borrowed) are compared with a map model after every step of seeded histories on both kinds. Sampling, not proof.",
          "Trusted: the reference model (BTreeMap), std/indexmap.", "3,4.C03"),
  "C04": ("exploration", HIST + "; leaked iter_mut/drain guards as injected faults; index-table invariant via the cfg-gated snapshot hook; abort classification of worker processes",
-         "No step of any fault-free history may panic or abort; the index tables the unchecked accesses trust are checked after every step; workers run with std's debug precondition checks so an out-of-bounds get_unchecked aborts and is classified. Sampling, not proof.",
+         "No step of any fault-free history may panic or abort; the index tables the unchecked accesses trust are checked after every step; workers run with std's debug precondition checks so an out-of-bounds get_unchecked aborts and is classified; the thorough tier adds a Miri (Tree Borrows) batch of short histories, which is how the IterMut aliasing defect (D9) was found. Sampling, not proof.",
          "Trusted: std's ub_checks on get_unchecked (debug-assertions build), the snapshot hook being read-only.", "3,4.C04"),
 
  "C06": ("exploration", HIST + "; scheduler-chosen interleavings of next/next_back on the sorted iterators (episode scheduling)",
          "Sorted consumers of clones of every visited state: multiset equals contents and order monotone; the DoublePriorityQueue sorted iterator is advanced from both ends under seeded programs, each yield checked against the extreme of what remains, len before every call. Sampling, not proof.",
          "Trusted: the oracle's own multiset bookkeeping.", "3,4.C06"),
- "C08": ("exploration", HIST + "; predicate call logs; scheduler-chosen drop point of the iter_mut guard",
+ "C08": ("exploration", HIST + "; predicate call logs; scheduler-chosen drop point of the iter_mut guard; latent-damage twin (a queue freshly built from the same contents runs the rest of the history too)",
          "retain/retain_mut predicate logs, kept sets and rewritten priorities, iter_mut prefixes with writes through every yielded reference, pop_if accept/reject with rewrites, each followed by the order oracles. Sampling, not proof.",
          "Trusted: rule-based predicates are functions of the element only.", "3,4.C08"),
- "C09": ("exploration", HIST + "; seeded programs of next/next_back/len/size_hint on iter_mut with every yielded reference kept alive (address-distinctness oracle)",
+ "C09": ("exploration", HIST + "; seeded programs of next/next_back/nth/nth_back/len/size_hint/for_each/count/last on iter_mut with every yielded reference written in the loop body and kept alive (address-distinctness and positional oracles); Miri batch in the thorough tier",
          "Every yielded (&mut item, &mut priority) is kept alive for the episode; addresses and ids must be pairwise distinct, size reports exact where an exact size is declared, None forever after exhaustion; directly, through &mut queue, rev and take. Sampling, not proof.",
          "Natively an aliasing duplicate is detected by address equality, not by a memory model.", "3,4.C09"),
- "C11": ("exploration", HIST + " biased to push_increase/push_decrease with lower/equal/higher offers",
+ "C11": ("exploration", HIST + " biased to push_increase/push_decrease with lower/equal/higher offers, priorities stamped outside Ord; latent-damage twin",
          "Return value and full contents after every push_increase/push_decrease against the model, plus order oracles. Sampling, not proof.",
          "Trusted: the reference model.", "3,4.C11"),
  "C12": ("exploration", HIST + " with item payloads outside Eq/Hash and owned vs borrowed lookups",
          "Every update passes a key with a fresh payload; stored payloads (first inserted or written through get_mut/peek_*_mut/iter_mut/retain_mut/pop_if) are compared with the model after every step; borrowed and owned lookups must agree. Sampling, not proof.",
          "Trusted: the reference model.", "3,4.C12"),
- "C13": ("exploration", HIST + "; seeded programs on iter/into_iter/drain/sorted iterators and std adaptor compositions",
+ "C13": ("exploration", HIST + "; seeded programs (next, next_back, nth, nth_back, len, size_hint, for_each, count, last) on iter/into_iter/drain/sorted iterators checked position by position against the iterator's own forward order, and std adaptor compositions",
          "Each element exactly once then None forever, no element from both ends, len and size_hint exact before every call for every type that declares ExactSizeIterator, .len() and .count() of take/skip/zip/peekable/rev/enumerate/step_by/chain compositions under catch_unwind. Sampling, not proof.",
          "Trusted: std adaptor implementations.", "3,4.C13"),
- "C16": ("exploration", HIST + "; drain guards dropped or leaked (mem::forget) after scheduler-chosen programs; drop ledger",
-         "After drain() — consumed fully, partially, not at all, or leaked — and after clear the queue must be empty and the history continues against a fresh model with all oracles exact; the drop ledger must balance except for what a guard forgotten by the harness still owns. Sampling, not proof.",
+ "C16": ("exploration", HIST + "; drain guards dropped or leaked (mem::forget) after scheduler-chosen programs; drop ledger; emptied-vs-fresh twin simulation",
+         "After drain() — consumed fully, partially, not at all, or leaked — and after clear the queue must be empty; from there on a really fresh queue runs the remaining steps in lock-step and every return value must agree (so an unrelated defect cannot alarm); the drop ledger must balance except for what a guard forgotten by the harness still owns. Sampling, not proof.",
          "Trusted: the ledger (unique token per value).", "3,4.C16"),
 
  "C10": ("fault_enumeration", "crash-point enumeration: panic injected at every k-th callback of every class (cmp, hash, eq, clone, predicate, setter, source, loop body) and guard leaks, on seeded states, followed by seeded possibly faulty continuations; worker-process abort classification; drop ledger",
@@ -45,7 +45,7 @@ CHECKS = {
          "Trusted: std's debug precondition checks on get_unchecked*, the token ledger. UB that is none of these needs Miri (./check C10 miri, thorough).", "3,4.C10"),
 
  "C07": ("exploration", HIST + " + differential execution of the same (receiver, pair sequence) under every class of legal size_hint report (simulated source seam), simulated memory ceiling",
-         "Half of the runs are histories biased to extend/append/From/FromIterator/conversions against the model (first-wins / last-wins / append rule, other queue emptied and reusable, order oracles); the other half execute one (state, pairs) case under 11-12 size_hint classes up to usize::MAX and require no panic or abort, identical outcome including item values, model priorities and a correctly ordered result. Sampling, not proof.",
+         "A third of the runs are histories biased to extend/append/From/FromIterator/conversions against the model (first-wins / last-wins / append rule, other queue emptied and reusable, order oracles); a third execute one (state, pairs) case under 11-12 size_hint classes up to usize::MAX and require no panic or abort, identical outcome including item values, model priorities and a correctly ordered result; a third are latent-damage twins (a freshly built queue with the same contents runs the rest of the history too). Sampling, not proof.",
          "Trusted: the reference model; the 1 GiB per-request memory ceiling of the simulated allocator.", "3,4.C07"),
 
  "C05": ("exploration", "simulated clock = comparator ticks: every operation call is a request with a deadline in ticks, measured at pairs of sizes on seeded priority patterns (absolute deadlines and growth conditions)",
@@ -101,7 +101,7 @@ def main():
                      "kind_free_text": "deterministic simulator: seeded scheduler over client steps and fault plans, instrumented item/priority/hasher/allocator/source seams, reference model, worker processes with abort classification, delta-debugging shrinker, replay files"}],
         "checks": checks,
         "not_applicable": na,
-        "notes": "All checks: ./check <Cxx> <quick|thorough>; VERIF_SEED (default 1) selects the PRNG seed; exit 0/1/2 = held / VIOLATION printed / harness error. Known findings: /verif/known_findings.json.",
+        "notes": "All checks: ./check <Cxx> <quick|thorough>; VERIF_SEED (default 1) selects the PRNG seed; exit 0/1/2 = held / VIOLATION printed / harness error. Thorough tiers of C04 C08 C09 C10 C13 C16 end with a single-process batch of the same engine under Miri (Tree Borrows); ./check <Cxx> miri runs that batch alone; ./check selftest determinism compares 1-process and 16-process executions. Known findings: /verif/known_findings.json (one known entry: C08, late write through an iter_mut reference). Independently written breaking changes and which check reports which: /verif/seeded/KILL_MATRIX.md.",
     }
     json.dump(m, open('/verif/MANIFEST.json','w'), indent=1)
 
